@@ -28,4 +28,38 @@ rc=$?
 if [ $rc -ne 0 ]; then
   echo "INCONCLUSIVE property=$prop python driver exited with $rc"
 fi
+if [ "$prop" = "C20" ] && [ "$tier" = "thorough" ] && [ -z "${VERIF_NO_VALGRIND:-}" ]; then
+  # memcheck over exception-crossing-FFI scenarios: two per problem variant
+  ids=$("$PY" - "$scen" <<'PYSEL'
+import json,sys
+doc=json.load(open(sys.argv[1]))
+seen={}
+out=[]
+for s in doc["scenarios"]:
+    if s["prop"]!="C20" or s["fault"] is None: continue
+    if s["fault"]["kind"] not in ("raise","none"): continue
+    w=s["spec"]["wrap"]; k=(w,s["fault"]["kind"])
+    if k in seen: continue
+    seen[k]=1; out.append(str(s["id"]))
+print(",".join(out[:12]))
+PYSEL
+)
+  vlog="$B/valgrind_C20.log"; rm -f "$vlog"
+  PYTHONMALLOC=malloc PYTHONPATH="$B/pymod" PYTHONDONTWRITEBYTECODE=1 timeout 2400 valgrind --tool=memcheck --error-limit=no --leak-check=full --show-leak-kinds=definite --errors-for-leak-kinds=definite --num-callers=30 --log-file="$vlog" "$PY" "$ROOT/py/driver.py" "$scen" "$B/py_C20_valgrind_results.json" --only-ids "$ids" --jobs 1 --inline >/dev/null 2>&1
+  vrc=$?
+  "$PY" - "$vlog" "$B/valgrind_C20.json" "$vrc" "$ids" <<'PYSUM'
+import json,re,sys
+try: t=open(sys.argv[1],errors="replace").read()
+except Exception: t=""
+blocks=re.split(r"\n==\d+== \n",t)
+bad=[]
+for b in blocks:
+    if ("Invalid read" in b or "Invalid write" in b or "definitely lost" in b or "Invalid free" in b or "uninitialised" in b) and "oxmpl_py" in b:
+        bad.append(b[:1500])
+m=re.search(r"ERROR SUMMARY: (\d+) errors",t)
+json.dump({"scenario_ids":sys.argv[4],"valgrind_exit":int(sys.argv[3]),"error_summary":int(m.group(1)) if m else None,"reports_with_extension_frames":bad[:10],"completed":bool(m)},open(sys.argv[2],"w"),indent=1)
+print("valgrind: exit %s, error summary %s, %d report blocks with oxmpl_py frames"%(sys.argv[3], m.group(1) if m else "n/a", len(bad)))
+PYSUM
+  export VERIF_VALGRIND_SUMMARY="$B/valgrind_C20.json"
+fi
 exec "$ROOT/harness/target/release/oxverif" pyverify "$prop" "$scen" "$res" "$tier"
